@@ -23,6 +23,23 @@ def norm_path(p):
     return s
 
 
+_PATH_KEYS = ("path", "fn", "item", "decl", "res", "trait", "parent")
+
+
+def _norm_tree(x):
+    if isinstance(x, dict):
+        for k, v in x.items():
+            if isinstance(v, str):
+                if k in _PATH_KEYS and "'" in v:
+                    x[k] = norm_path(v)
+            elif isinstance(v, (dict, list)):
+                _norm_tree(v)
+    elif isinstance(x, list):
+        for v in x:
+            if isinstance(v, (dict, list)):
+                _norm_tree(v)
+
+
 class Facts:
     def __init__(self, path):
         with open(path) as f:
@@ -53,16 +70,11 @@ class Facts:
                 b["path"] = b["path"] + "@" + b["dp"]
             self.bodies[b["path"]] = b
             self.body_list.append(b)
-            for blk in b["blocks"]:
-                t = blk["term"]
-                if t["t"] == "call":
-                    c = t["callee"]
-                    for k in ("decl", "res", "trait"):
-                        if c.get(k):
-                            c[k] = norm_path(c[k])
+            _norm_tree(b["blocks"])
         for t in self.types:
             if isinstance(t, dict) and "path" in t:
                 t["path"] = norm_path(t["path"])
+        _norm_tree(d["consts"])
         self._tystr = {}
 
     # ----- types
